@@ -255,8 +255,9 @@ def main():
     }
     if "coqchk" in gdetail:
         ev["coverage"]["coqchk"] = gdetail["coqchk"]
-    os.makedirs(os.path.join(ROOT, "evidence"), exist_ok=True)
-    with open(os.path.join(ROOT, "evidence", pid + ".json"), "w") as f:
+    evdir = os.path.join(CACHE, "evidence-alt") if ALT_REPO else os.path.join(ROOT, "evidence")
+    os.makedirs(evdir, exist_ok=True)
+    with open(os.path.join(evdir, pid + ".json"), "w") as f:
         json.dump(ev, f, indent=1, default=str)
 
     if real:
